@@ -27,6 +27,11 @@
 //      plugin whose post action runs second sees a leak failure of the first as "test already failed". A marker plugin
 //      between the two records how many failures existed when the inner post action was done, which attributes every
 //      leak failure to its plugin without looking at the text.
+// Bystander plugins (Program::by): up to three plugins that have nothing to do with leak checking (their actions only count
+// their own invocations) sit somewhere in the chain - installed before / after the leak plugin(s), between two leak plugins,
+// at the head or the tail - and each is enabled or DISABLED (TestPlugin::disable) for the whole program. The leak plugin is
+// installed and enabled all the same, so every verdict, report and blame demand is unchanged; a disabled bystander getting
+// actions is C17's business and only counted here.
 // Everything the monitor records during a run lives in static arrays / libc malloc, so that the
 // monitor itself allocates nothing through the tracked operators inside a checking period; all
 // judging happens after the run with the detector disabled.
@@ -72,8 +77,15 @@ struct OpRec { uint8_t op, slot, kind, pad; uint16_t size, arg; };
 // there belong to no test: they must never be charged to one (only the final report knows them).
 enum { PH_BEFORE = 3, PH_AFTER = 4, N_PH = 5, FIRST_OUTSIDE_SLOT = 60 };
 struct TestScript { uint8_t nops[N_PH]; uint8_t plugfail; OpRec ops[N_PH][MAX_OPS]; };   // plugfail: another plugin records a failure in its pre (1) / post (2) action
+// bystander plugins: pos = install step they precede. Install order (the registry prepends, so later = closer to the head of the chain =
+// earlier pre action, later post action): [0] plugin that fails tests [1] (inner) leak plugin [2] marker [3] outer leak plugin [4] plugin
+// running the code between tests [5] end. With one leak plugin steps 2 and 3 are empty (positions 2..4 are then equivalent).
+enum { MAX_BY = 3, N_BYPOS = 6 };
+static const char* BYPOS_NAME[N_BYPOS] = { "installed-first", "just-before-the-(inner)-leak-plugin", "just-after-the-(inner)-leak-plugin", "just-before-the-(outer)-leak-plugin", "after-the-leak-plugins", "installed-last" };
+struct Bystander { uint8_t pos, enabled; };
 struct Program {
     int ntests, repeat, nslots, profile; bool threadsafe;
+    int nby; Bystander by[MAX_BY];
     int detmode; bool local_outer;      // detmode see above; local_outer (mode 2): the own-detector plugin is the head of the chain (its post action runs last)
     TestScript t[MAX_TESTS];
 };
@@ -108,7 +120,9 @@ static std::string describe_program(const Program& P) {
         if (P.t[t].plugfail) s += P.t[t].plugfail == 1 ? " | other plugin fails the test in preTestAction" : " | other plugin fails the test in postTestAction";
         tests.push_back(vf::jstr(s));
     }
-    return vf::J().k("profile", P.profile).k("detectors", P.detmode == 0 ? "global" : P.detmode == 1 ? "plugin-with-own-detector" : P.local_outer ? "two-plugins:own-detector-plugin-outer" : "two-plugins:global-detector-plugin-outer").k("tests", P.ntests).k("repeat", P.repeat).k("slots", P.nslots).k("threadsafe_overloads", P.threadsafe).raw("scripts", vf::jarr(tests)).str();
+    std::vector<std::string> bys;
+    for (int i = 0; i < P.nby; i++) bys.push_back(vf::jstr(std::string(P.by[i].enabled ? "enabled:" : "DISABLED:") + BYPOS_NAME[P.by[i].pos]));
+    return vf::J().k("profile", P.profile).raw("bystander_plugins", vf::jarr(bys)).k("detectors", P.detmode == 0 ? "global" : P.detmode == 1 ? "plugin-with-own-detector" : P.local_outer ? "two-plugins:own-detector-plugin-outer" : "two-plugins:global-detector-plugin-outer").k("tests", P.ntests).k("repeat", P.repeat).k("slots", P.nslots).k("threadsafe_overloads", P.threadsafe).raw("scripts", vf::jarr(tests)).str();
 }
 
 static uint64_t program_hash(const Program& P) {
@@ -116,6 +130,7 @@ static uint64_t program_hash(const Program& P) {
     h = vf::fnv(&P.repeat, sizeof P.repeat, h);
     int cfg = P.detmode * 2 + (P.detmode == 2 && P.local_outer ? 1 : 0);
     if (cfg) h = vf::fnv(&cfg, sizeof cfg, h);
+    for (int i = 0; i < P.nby; i++) { uint8_t b[3] = { 0xb7, P.by[i].pos, P.by[i].enabled }; h = vf::fnv(b, sizeof b, h); }
     for (int t = 0; t < P.ntests; t++) {
         h = vf::fnv(&P.t[t].plugfail, 1, h);
         for (int ph = 0; ph < N_PH; ph++) { if (ph >= 3 && !P.t[t].nops[ph]) continue; h = vf::fnv(&P.t[t].nops[ph], 1, h); h = vf::fnv(P.t[t].ops[ph], sizeof(OpRec) * P.t[t].nops[ph], h); }
@@ -365,6 +380,17 @@ public:
 };
 static MarkerPlugin* MARKER;
 
+// plugins that have nothing to do with leak checking: they only count how often they were asked to act
+static uint64_t BY_PRE[MAX_BY], BY_POST[MAX_BY];
+class BystanderPlugin : public TestPlugin {
+    int id_;
+public:
+    BystanderPlugin(const char* name, int id) : TestPlugin(name), id_(id) {}
+    void preTestAction(UtestShell&, TestResult&) override { BY_PRE[id_]++; }
+    void postTestAction(UtestShell&, TestResult&) override { BY_POST[id_]++; }
+};
+static BystanderPlugin* BY[MAX_BY];
+
 // ------------------------------------------------------------------ recording output (libc malloc only)
 class Recorder : public TestOutput {
 public:
@@ -565,6 +591,7 @@ static void run_and_judge(vf::Ctx& c) {
     DET->disable();
     PlatformSpecificRealloc = REAL_REALLOC;
     const int mode = G.detmode;
+    const int nby = G.nby < 0 ? 0 : G.nby > MAX_BY ? MAX_BY : G.nby;
     const bool has[2] = { mode != 1, mode != 0 };             // which detectors carry a leak plugin
     g_local_misuse = 0; LDET = NULL; PL[0] = PL[1] = NULL;
     static LocalReporter local_reporter;
@@ -588,11 +615,17 @@ static void run_and_judge(vf::Ctx& c) {
         TestRegistry reg;
         bool anyplug = false, anyoutside = false;
         for (int i = G.ntests - 1; i >= 0; i--) { reg.addTest(SH[i]); anyplug |= G.t[i].plugfail != 0; anyoutside |= G.t[i].nops[PH_BEFORE] || G.t[i].nops[PH_AFTER]; }
+        for (int i = 0; i < MAX_BY; i++) { BY_PRE[i] = BY_POST[i] = 0; BY[i]->enable(); if (i < nby && !G.by[i].enabled) BY[i]->disable(); }
+        auto install_bystanders = [&](int step) { for (int i = 0; i < nby; i++) if (G.by[i].pos == step) reg.installPlugin(BY[i]); };
+        install_bystanders(0);
         if (anyplug) reg.installPlugin(FAILPLUGIN);
+        install_bystanders(1);
         // head of the chain: first pre action, last post action, as in RunAllTests
-        if (mode == 2) { int outer = G.local_outer ? 1 : 0; reg.installPlugin(PL[1 - outer]); reg.installPlugin(MARKER); reg.installPlugin(PL[outer]); }
-        else reg.installPlugin(first);
+        if (mode == 2) { int outer = G.local_outer ? 1 : 0; reg.installPlugin(PL[1 - outer]); install_bystanders(2); reg.installPlugin(MARKER); install_bystanders(3); reg.installPlugin(PL[outer]); }
+        else { reg.installPlugin(first); install_bystanders(2); install_bystanders(3); }
+        install_bystanders(4);
         if (anyoutside) reg.installPlugin(OUTER);
+        install_bystanders(5);
         Recorder out;
         for (int k = 0; k < rep; k++) {
             TestResult tr(out);
@@ -611,6 +644,7 @@ static void run_and_judge(vf::Ctx& c) {
         if (LDET) LDET->disable();
         MemoryLeakWarningPlugin::turnOnDefaultNotThreadSafeNewDeleteOverloads();
         reg.resetPlugins();
+        for (int i = 0; i < MAX_BY; i++) BY[i]->enable();
         for (int d = 0; d < 2; d++) if (has[d]) PL[d]->~MemoryLeakWarningPlugin();
         MemoryLeakWarningPlugin::turnOffNewDeleteOverloads();
     }
@@ -631,7 +665,9 @@ static void run_and_judge(vf::Ctx& c) {
     for (int r = 0; r < nR; r++) {
         const RunRec& rr = R[r];
         if (rr.test < 0) { c.violation("harness:unknown-test-started", "run " + std::to_string(r)); continue; }
-        if (mode == 2 && rr.mark < 0) { c.violation("harness:marker-plugin-not-run", "run " + std::to_string(r)); continue; }
+        if (mode == 2 && rr.mark < 0) {
+            int dis = 0; for (int i = 0; i < nby; i++) if (!G.by[i].enabled && G.by[i].pos > 2) dis++;
+            c.violation("harness:marker-plugin-not-run", "run " + std::to_string(r) + ": the (enabled) plugin between the two leak plugins did not get its post action; disabled plugins ahead of it in the chain: " + std::to_string(dis)); continue; }
         std::vector<const FailRec*> own, other, leak[2];
         // with two leak plugins: failures recorded before the marker's post action belong to the inner plugin, later ones to the outer
         const int inner = mode == 2 ? (G.local_outer ? 0 : 1) : (mode == 1 ? 1 : 0);
@@ -678,10 +714,16 @@ static void run_and_judge(vf::Ctx& c) {
             bool want_alt = earlier_failures == 0 && !rr.ignore[d] && E.size() - adopted != expected;
             std::string alt = (adopted && want_alt == !lk.empty()) ? ":consistent-if-realloc-of-earlier-tests-block-is-not-an-allocation" : "";
             if (adopted) c.count("tests_leaking_realloc_of_earlier_tests_block");
+            // bystander plugins relative to THIS leak plugin: "ahead" = installed after it = closer to the head of the chain
+            // (their post action runs after the leak plugin's; the post-action call reaches the leak plugin through them)
+            const int my_step = second_of_two ? 3 : 1;
+            int dis_ahead = 0, dis_behind = 0, en_ahead = 0, en_behind = 0;
+            for (int i = 0; i < nby; i++) { bool ahead = G.by[i].pos > my_step; if (G.by[i].enabled) (ahead ? en_ahead : en_behind)++; else (ahead ? dis_ahead : dis_behind)++; }
+            if (nby) where += ", bystander plugins ahead of this leak plugin in the chain: " + std::to_string(en_ahead) + " enabled / " + std::to_string(dis_ahead) + " disabled, behind it: " + std::to_string(en_behind) + " enabled / " + std::to_string(dis_behind) + " disabled";
             // verdict
             if (lk.size() > 1) c.violation("verdict:leak-failure-repeated" + sfx, where + ": " + std::to_string(lk.size()) + " leak failures for one test");
             if (want && lk.empty()) {
-                std::string k = "verdict:leak-failure-missing:" + std::string(E.size() > expected ? "more-than-" : "fewer-than-") + decl + (rr.freed_earlier[d] ? ":released-earlier-tests-blocks" : "") + alt + sfx;
+                std::string k = "verdict:leak-failure-missing:" + std::string(E.size() > expected ? "more-than-" : "fewer-than-") + decl + (rr.freed_earlier[d] ? ":released-earlier-tests-blocks" : "") + alt + (dis_ahead ? ":leak-plugin-behind-a-disabled-plugin" : "") + sfx;
                 c.violation(k, where);
             }
             if (!want && !lk.empty()) {
@@ -726,6 +768,15 @@ static void run_and_judge(vf::Ctx& c) {
                 if (rr.freed_earlier[d] && !E.empty()) c.count("own_detector_tests_releasing_earlier_and_leaking_own");
                 if (want) c.count("own_detector_verdict_leak");
             }
+            if (nby) {
+                const char* what = want ? (E.size() > expected ? "leak_more" : "leak_fewer") : earlier_failures ? "failed_test" : rr.ignore[d] ? "ignore" : "pass";
+                if (dis_ahead) c.count(std::string("bystander_disabled_ahead_of_leak_plugin_verdict_") + what);
+                if (dis_behind) c.count(std::string("bystander_disabled_behind_leak_plugin_verdict_") + what);
+                if (en_ahead) c.count(std::string("bystander_enabled_ahead_of_leak_plugin_verdict_") + what);
+                if (en_behind) c.count(std::string("bystander_enabled_behind_leak_plugin_verdict_") + what);
+                if (dis_ahead && want && !lk.empty()) c.count("leak_failures_delivered_through_disabled_plugin");
+                if (dis_ahead && earlier_live && !E.empty() && want) c.count("bystander_disabled_ahead_leak_report_while_earlier_blocks_live");
+            }
             if (mode == 2) {
                 c.count(d ? "two_plugins_verdicts_own_detector" : "two_plugins_verdicts_global_detector");
                 if (!E.empty()) leaking_detectors++;
@@ -756,6 +807,20 @@ static void run_and_judge(vf::Ctx& c) {
     }
     c.count(mode == 0 ? "programs_global_detector" : mode == 1 ? "programs_plugin_with_own_detector" : G.local_outer ? "programs_two_leak_plugins_own_detector_outer" : "programs_two_leak_plugins_global_detector_outer");
     c.count("programs");
+    if (nby) {
+        c.count("programs_with_bystander_plugins");
+        bool anydis = false;
+        for (int i = 0; i < nby; i++) {
+            const bool en = G.by[i].enabled != 0;
+            c.count(std::string(en ? "bystander_enabled_at_" : "bystander_disabled_at_") + BYPOS_NAME[G.by[i].pos]);
+            anydis |= !en;
+            // what the bystanders themselves saw is evidence only (who gets actions is C17's property)
+            if (en) { c.count("bystander_actions_received_while_enabled", BY_PRE[i] + BY_POST[i]); if (BY_PRE[i] != (uint64_t) nR || BY_POST[i] != (uint64_t) nR) c.count("bystander_enabled_action_count_differs_from_tests_run"); }
+            else if (BY_PRE[i] + BY_POST[i]) c.count("bystander_actions_received_while_disabled", BY_PRE[i] + BY_POST[i]);
+        }
+        if (anydis) c.count("programs_with_disabled_bystander_plugin");
+        if (anydis && rep > 1) c.count("programs_repeated_with_disabled_bystander_plugin");
+    }
     for (int i = 0; i < O_N; i++) if (OPC[i]) c.count(std::string("op_") + OP_NAME[i], OPC[i]);
     for (int i = 0; i < K_N; i++) if (KINDC[i]) c.count(std::string("alloc_") + KIND_NAME[i], KINDC[i]);
     if (g_skipped_ops) c.count("ops_skipped_slot_state", g_skipped_ops);
@@ -786,7 +851,7 @@ static void run_and_judge(vf::Ctx& c) {
 
 // ------------------------------------------------------------------ generators
 static void clear_program(int ntests) {
-    G.ntests = ntests; G.repeat = 1; G.nslots = 16; G.profile = 0; G.threadsafe = false; G.detmode = 0; G.local_outer = false;
+    G.ntests = ntests; G.repeat = 1; G.nslots = 16; G.profile = 0; G.threadsafe = false; G.detmode = 0; G.local_outer = false; G.nby = 0; memset(G.by, 0, sizeof G.by);
     for (int t = 0; t < ntests; t++) memset(&G.t[t], 0, sizeof(TestScript));
 }
 static void push(int t, int ph, OpRec o) { TestScript& ts = G.t[t]; if (ts.nops[ph] < MAX_OPS) ts.ops[ph][ts.nops[ph]++] = o; }
@@ -916,6 +981,11 @@ static void gen_random_program(vf::Ctx& c, int profile, int max_tests, int detmo
             }
         }
     }
+    // bystander plugins (drawn last of all, for the same reason): 1..3 of them anywhere in the chain, each enabled or disabled
+    if (r.chance(30)) {
+        G.nby = r.chance(50) ? 1 : r.chance(60) ? 2 : 3;
+        for (int i = 0; i < G.nby; i++) { G.by[i].pos = (uint8_t) r.below(N_BYPOS); G.by[i].enabled = (uint8_t) (r.chance(55) ? 0 : 1); }
+    }
 }
 
 static void sec_random(vf::Ctx& c) {
@@ -989,6 +1059,34 @@ static void sec_two_plugin_matrix(vf::Ctx& c) {
     run_and_judge(c);
 }
 
+// chain shapes: every placement of one or two bystander plugins (6 positions x enabled / disabled each) x the four detector /
+// leak-plugin configurations x a small verdict matrix (#leaked 0..2 x declaration unset / 1 x own failure x code between tests)
+enum { BC_CFG = 4, BC_A = N_BYPOS * 2, BC_B = N_BYPOS * 2 + 1, BC_L = 3, BC_EXP = 2, BC_FAIL = 2, BC_OUT = 2 };
+static const uint64_t BC_TOTAL = (uint64_t) BC_CFG * BC_A * BC_B * BC_L * BC_EXP * BC_FAIL * BC_OUT;
+static void sec_bystander_matrix(vf::Ctx& c) {
+    uint64_t i = c.idx;
+    int L = (int) (i % BC_L); i /= BC_L; int ex = (int) (i % BC_EXP); i /= BC_EXP; int fl = (int) (i % BC_FAIL); i /= BC_FAIL; int outside = (int) (i % BC_OUT); i /= BC_OUT;
+    int a = (int) (i % BC_A); i /= BC_A; int b = (int) (i % BC_B); i /= BC_B; int cfg = (int) (i % BC_CFG);
+    clear_program(4); G.profile = 13; G.nslots = 12;
+    G.detmode = cfg >= 2 ? 2 : cfg; G.local_outer = cfg == 3;
+    G.nby = b ? 2 : 1;
+    G.by[0].pos = (uint8_t) (a % N_BYPOS); G.by[0].enabled = (uint8_t) (a / N_BYPOS);
+    if (b) { G.by[1].pos = (uint8_t) ((b - 1) % N_BYPOS); G.by[1].enabled = (uint8_t) ((b - 1) / N_BYPOS); }
+    const int ndet = G.detmode == 2 ? 2 : 1;
+    static const int kinds[2] = { K_NEW_LOC, K_MALLOC };
+    for (int d = 0; d < ndet; d++) push(0, 1, mk(O_ALLOC, d, kinds[d], 9 + 8 * (unsigned) d, 0, d));          // predecessor leaks one block per leak plugin
+    for (int d = 0; d < ndet; d++) {
+        if (ex) push(1, 0, mk(O_EXPECT, 0, 0, 0, 1, d));
+        for (int k = 0; k < L; k++) push(1, k == 0 ? 1 : 2, mk(O_ALLOC, 2 + 2 * d + k, kinds[(d + k) % 2], 5 + 6 * (unsigned) k, 0, d));
+    }
+    push(1, 2, mk(O_FREE, 0));                                                                                // subject releases the predecessor's block (does not offset its own leaks)
+    if (fl) push(1, 1, mk(O_FAIL, 0, F_CHECK));
+    push(2, 1, mk(O_ALLOC, 8, K_NEWA, 12, 0, 0)); push(2, 2, mk(O_FREE, 8));                                  // clean successor
+    if (outside) { push(2, PH_BEFORE, mk(O_ALLOC, FIRST_OUTSIDE_SLOT, K_NEW, 20, 0, 0)); push(2, PH_AFTER, mk(O_FREE, FIRST_OUTSIDE_SLOT)); push(1, PH_AFTER, mk(O_TEMP, 0, K_MALLOC, 6, 0, ndet - 1)); }
+    for (int s = 0; s < 6; s++) push(3, 1, mk(O_FREE, s));                                                    // sweeper
+    run_and_judge(c);
+}
+
 // many leaks in one test (reports near and beyond the detector's text capacity)
 static void sec_bulk(vf::Ctx& c) {
     vf::Rng& r = c.rng;
@@ -1011,6 +1109,8 @@ static void init() {
     FAILPLUGIN = new FailPlugin;
     MARKER = new MarkerPlugin;
     OUTER = new OuterPlugin;
+    static const char* by_names[MAX_BY] = { "C07BystanderA", "C07BystanderB", "C07BystanderC" };
+    for (int i = 0; i < MAX_BY; i++) BY[i] = new BystanderPlugin(by_names[i], i);
     REAL_REALLOC = PlatformSpecificRealloc;
     for (int i = 0; i < MAX_TESTS; i++) {
         char* f = (char*) malloc(24); snprintf(f, 24, "c07_t%02d.cpp", i); FILES[i] = f;
@@ -1031,6 +1131,7 @@ int main(int argc, char** argv) {
         { "own_detector_programs", 12000, 150000, sec_own_detector, false },
         { "two_leak_plugins_programs", 12000, 150000, sec_two_plugins, false },
         { "two_leak_plugins_matrix", TP_TOTAL, TP_TOTAL, sec_two_plugin_matrix, true },
+        { "bystander_plugins_matrix", BC_TOTAL, BC_TOTAL, sec_bystander_matrix, true },
     };
     return vf::harness_main(argc, argv, S, init);
 }
